@@ -259,7 +259,7 @@ Fixpoint run_sched (c : cfg) (s : st) (ts : list pc) (sch : list sched_ev) : st 
   end.
 
 (* what the harness reports per schedule entry: 0 tick, 1 blocked on the connection,
-   2 the call returned, 3 thread had already returned, 1x parked at a schedule point (15: janitor before its Lock) *)
+   2 the call returned, 3 thread had already returned, 1x parked at a schedule point (15: janitor before its Lock; 16: a generic lock-boundary point of the exploration cases, which are judged by the oracle only) *)
 Definition outcome_code (o : outcome) : N :=
   match o with
   | OTick => 0 | OBlocked => 1 | OAlready => 3 | OBad => 99
@@ -390,7 +390,7 @@ Definition dec_sched (ticks : list Z) (z : Z) : list sched_ev :=
       (digits 200 64 z).
 
 Definition dec_steps (z : Z) : list N :=
-  map (fun d => nth (Z.to_nat d) [0; 1; 2; 3; 10; 11; 12; 13; 14; 15]%N 98%N) (digits 200 16 z).
+  map (fun d => nth (Z.to_nat d) [0; 1; 2; 3; 10; 11; 12; 13; 14; 15; 16]%N 98%N) (digits 200 16 z).
 
 (* digit = returned + 2*success + 4*token id + 256*permission code *)
 Definition dec_res (z : Z) : list result :=
